@@ -805,10 +805,29 @@ func VfCrash() {
 			Metadata: map[string]string{"gen": "old"}})
 		zzvf.Assert(err == nil, "setup-old-object")
 	}
-	op := zzvf.Choice("operation", 2)
+	op := zzvf.Choice("operation", 3)
 	newBody := zzvf.BytesN("new_body", 1)
-	crashAt := zzvf.Choice("crash_at_step", 40)
-	zzvf.Bound("crash_steps_max", 40)
+	var up s3response.InitiateMultipartUploadResult
+	var partETag *string
+	pn := int32(1)
+	if op == 2 {
+		var err error
+		up, err = p.CreateMultipartUpload(vfCtx(), s3response.CreateMultipartUploadInput{Bucket: vfStr("bkt"), Key: &key})
+		zzvf.Assert(err == nil, "setup-create-upload")
+		pr, err := p.UploadPart(vfCtx(), &s3.UploadPartInput{Bucket: vfStr("bkt"), Key: &key, UploadId: &up.UploadId, PartNumber: &pn, Body: bytes.NewReader(newBody), ContentLength: &one})
+		zzvf.Assert(err == nil, "setup-upload-part")
+		if err != nil {
+			return
+		}
+		partETag = pr.ETag
+	}
+	complete := func(g *Posix) error {
+		_, e := g.CompleteMultipartUpload(vfCtx(), &s3.CompleteMultipartUploadInput{Bucket: vfStr("bkt"), Key: &key, UploadId: &up.UploadId,
+			MultipartUpload: &types.CompletedMultipartUpload{Parts: []types.CompletedPart{{PartNumber: &pn, ETag: partETag}}}})
+		return e
+	}
+	crashAt := zzvf.Choice("crash_at_step", 60)
+	zzvf.Bound("crash_steps_max", 60)
 	start := zzvfos.M.Steps
 	zzvfos.M.StepHook = func(opname, path string) {
 		if zzvfos.M.Steps-start == crashAt+1 {
@@ -818,7 +837,9 @@ func VfCrash() {
 	}
 	var opErr error
 	crashed := zzvf.CatchAbort(func() {
-		if op == 0 {
+		if op == 2 {
+			opErr = complete(p)
+		} else if op == 0 {
 			_, opErr = p.PutObject(vfCtx(), s3response.PutObjectInput{Bucket: vfStr("bkt"), Key: &key, Body: bytes.NewReader(newBody), ContentLength: &one,
 				Metadata: map[string]string{"gen": "new"}})
 		} else {
@@ -839,7 +860,23 @@ func VfCrash() {
 	zzvf.Assert(coherent, "length-matches-data-after-crash")
 	isOld := zzvf.And(present, zzvf.BytesEq(data, oldBody), etag == vfQuotedMD5(oldBody))
 	isNew := zzvf.And(present, zzvf.BytesEq(data, newBody), etag == vfQuotedMD5(newBody))
-	if op == 0 {
+	if op == 2 {
+		// multipart completion: the key holds its previous state or the completed object; if it is not completed the upload
+		// can still be completed (the acknowledged part is not lost)
+		done := zzvf.And(present, zzvf.BytesEq(data, newBody))
+		if existing {
+			zzvf.Assert(zzvf.Or(isOld, done), "completion-leaves-complete-old-or-complete-new-object")
+		} else {
+			zzvf.Assert(zzvf.Or(!present, done), "completion-target-is-absent-or-complete")
+		}
+		if !crashed {
+			zzvf.Assert(done, "acknowledged-completion-persists")
+		} else if present && !zzvf.BytesEq(data, newBody) || !present {
+			zzvf.Assert(complete(q) == nil, "interrupted-completion-can-be-retried")
+			p2, d2, _, _ := vfKeyState(q, key)
+			zzvf.Assert(zzvf.And(p2, zzvf.BytesEq(d2, newBody)), "retried-completion-yields-the-object")
+		}
+	} else if op == 0 {
 		if existing {
 			zzvf.Assert(zzvf.Or(isOld, isNew), "overwrite-leaves-complete-old-or-complete-new-object")
 		} else {
@@ -887,21 +924,27 @@ func VfInterleave() {
 	oldBody := []byte("O")
 	_, err := p.PutObject(vfCtx(), s3response.PutObjectInput{Bucket: vfStr("bkt"), Key: &key, Body: bytes.NewReader(oldBody), ContentLength: &one})
 	zzvf.Assert(err == nil, "setup-old-object")
-	newBody := zzvf.BytesN("new_body", 1)
+	newBody := zzvf.Bytes("new_body", 1)
+	newLen := int64(len(newBody))
 	writerIsDelete := zzvf.Choice("writer", 2) == 1
 	writer := func() error {
 		if writerIsDelete {
 			_, e := q.DeleteObject(vfCtx(), &s3.DeleteObjectInput{Bucket: vfStr("bkt"), Key: &key})
 			return e
 		}
-		_, e := q.PutObject(vfCtx(), s3response.PutObjectInput{Bucket: vfStr("bkt"), Key: &key, Body: bytes.NewReader(newBody), ContentLength: &one})
+		_, e := q.PutObject(vfCtx(), s3response.PutObjectInput{Bucket: vfStr("bkt"), Key: &key, Body: bytes.NewReader(newBody), ContentLength: &newLen})
 		return e
 	}
 	var rPresent, rCoherent bool
 	var rData []byte
 	var rETag string
 	reader := func() { rPresent, rData, rETag, rCoherent = vfKeyState(p, key) }
-	nested := zzvf.Choice("nesting", 2) // 0: reader inside the writer, 1: writer inside the reader
+	nested := zzvf.Choice("nesting", 3) // 0: reader inside the writer, 1: writer inside the reader, 2: a second writer inside the writer
+	body2 := []byte("2")
+	var w2Err error
+	writer2 := func() {
+		_, w2Err = p.PutObject(vfCtx(), s3response.PutObjectInput{Bucket: vfStr("bkt"), Key: &key, Body: bytes.NewReader(body2), ContentLength: &one})
+	}
 	at := zzvf.Choice("at_step", 40)
 	zzvf.Bound("steps_max", 40)
 	start := zzvfos.M.Steps
@@ -912,22 +955,37 @@ func VfInterleave() {
 			fired = true
 			zzvfos.M.StepHook = nil
 			zzvf.Trace("other operation runs before " + opname + " " + path)
-			if nested == 0 {
+			switch nested {
+			case 0:
 				reader()
-			} else {
+			case 1:
 				wErr = writer()
+			default:
+				writer2()
 			}
 		}
 	}
-	if nested == 0 {
-		wErr = writer()
-	} else {
+	if nested == 1 {
 		reader()
+	} else {
+		wErr = writer()
 	}
 	zzvfos.M.StepHook = nil
 	zzvf.Assume(fired) // positions beyond the outer operation's last step: nothing to explore
 	zzvf.Reach("interleaved")
 	zzvf.Assert(wErr == nil, "writer-succeeds")
+	if nested == 2 {
+		// two writers: both are acknowledged and the key ends up as the complete object of one of them
+		zzvf.Assert(w2Err == nil, "second-writer-succeeds")
+		present, data, etag, coherent := vfKeyState(p, key)
+		if writerIsDelete {
+			zzvf.Assert(zzvf.Or(!present, zzvf.And(coherent, zzvf.BytesEq(data, body2), etag == vfQuotedMD5(body2))), "delete-and-put-leave-nothing-or-the-put")
+		} else {
+			zzvf.Assert(zzvf.And(present, coherent), "two-overwrites-leave-a-complete-object")
+			zzvf.Assert(zzvf.Or(zzvf.And(zzvf.BytesEq(data, body2), etag == vfQuotedMD5(body2)), zzvf.And(zzvf.BytesEq(data, newBody), etag == vfQuotedMD5(newBody))), "two-overwrites-leave-one-of-the-two-objects")
+		}
+		return
+	}
 	isOld := zzvf.And(zzvf.BytesEq(rData, oldBody), rETag == vfQuotedMD5(oldBody))
 	isNew := zzvf.And(zzvf.BytesEq(rData, newBody), rETag == vfQuotedMD5(newBody))
 	if rPresent {
